@@ -77,6 +77,7 @@ fn build_guarded<T: Sc>(
                     Some(k) => vec![(k, i, j, v)],
                     None => vec![],
                 },
+                fail_eval: None,
             }))),
         };
         let wv = w.map(DVector::from_vec);
